@@ -3,7 +3,7 @@ several real connections (go-redis) to 1-3 in-process members; channel and patte
 no-match, overlap and duplicates.  Oracle: exactly-once delivery to every matching subscription, the
 PUBLISH count, silence after leaving, PUBSUB CHANNELS / NUMSUB / NUMPAT."""
 HEADER = 3
-REQUIRED_SHAPES = ["publish_with_pattern_nomatch", "publish_channel_and_pattern_same_conn", "duplicate_subscribe",
+REQUIRED_SHAPES = ["command_name_not_lower_case", "publish_to_raw_subscribers", "publish_with_pattern_nomatch", "publish_channel_and_pattern_same_conn", "duplicate_subscribe",
                    "publish_after_unsubscribe", "publish_after_disconnect", "publish_cross_member"]
 
 CHANNELS = [b"news", b"news.a", b"sport", b"n"]
@@ -50,6 +50,45 @@ class Oracle:
         if name == "c.new":
             self.n = int(dict(kv.split("=") for kv in a).get("n", 1))
             self.subs = {}
+            return None
+        if name == "c.rawhold":
+            # a subscriber that writes RESP by hand: command names in upper, lower or mixed case mean the same
+            raw = self.__dict__.setdefault("raw", {})
+            st = raw.setdefault(a[0], (set(), set()))
+            cmd = []
+            for tok in a[2:] + ["|"]:
+                if tok != "|":
+                    cmd.append(unhx(tok))
+                    continue
+                if cmd:
+                    c, names = cmd[0].lower(), cmd[1:]
+                    if c == b"subscribe":
+                        st[0].update(names)
+                    elif c == b"psubscribe":
+                        st[1].update(names)
+                    elif c == b"unsubscribe":
+                        st[0].difference_update(names) if names else st[0].clear()
+                    elif c == b"punsubscribe":
+                        st[1].difference_update(names) if names else st[1].clear()
+                    if cmd[0] != cmd[0].lower():
+                        self.hit("command_name_not_lower_case")
+                cmd = []
+            return None if reply == "ok" else "raw subscriber connection: %s" % reply
+        if name == "c.rawdrop":
+            self.__dict__.setdefault("raw", {}).pop(a[0], None)
+            return None
+        if name == "c.rawint":
+            toks = [unhx(t) for t in a[1:]]
+            raw = self.__dict__.get("raw", {})
+            if toks[0].lower() == b"publish":
+                ch = toks[1]
+                want = sum((ch in chans) + sum(1 for p in pats if glob(p, ch)) for (chans, pats) in raw.values())
+                self.hit("publish_to_raw_subscribers")
+                return None if reply == str(want) else (
+                    "PUBLISH on %r answered %s, %d subscriptions of the raw connections match (%s)" % (ch, reply, want, {k: (sorted(v[0]), sorted(v[1])) for k, v in raw.items()}))
+            if toks[0].lower() == b"pubsub" and toks[1].lower() == b"numpat":
+                want = len(set(p for (_, pats) in raw.values() for p in pats))
+                return None if reply == str(want) else "PUBSUB NUMPAT answered %s, %d distinct patterns are subscribed" % (reply, want)
             return None
         if name in ("ps.sub", "ps.psub"):
             k = (int(a[0]), int(a[1]))
@@ -155,7 +194,42 @@ class Gen:
     def __init__(self, rng, tier="quick"):
         self.rng = rng
 
+    def raw_case(self, orc):
+        """directed: subscribers that write their commands by hand, in any letter case (the client library always sends
+        lower case); a publisher counts the deliveries after every step"""
+        r = self.rng
+
+        def style(w):
+            return r.choice([w.upper(), w.upper(), w.lower(), w.capitalize(), w[:1].lower() + w[1:].upper()])
+        yield "watchdog 60s"
+        yield "clock 1700000000000000000"
+        yield "c.new n=1 parts=7"
+        chans, pats = [b"a", b"b", b"a*"], [b"a*", b"b*", b"*", b"a"]
+        for step in range(24):
+            conn = r.choice(["A", "A", "B"])
+            w = r.random()
+            if w < 0.25:
+                cmd = [style(b"subscribe")] + r.sample(chans, r.choice([1, 1, 2]))
+            elif w < 0.5:
+                cmd = [style(b"psubscribe")] + r.sample(pats, r.choice([1, 1, 2]))
+            elif w < 0.7:
+                cmd = [style(b"unsubscribe")] + (r.sample(chans, 1) if r.random() < 0.8 else [])
+            elif w < 0.92:
+                cmd = [style(b"punsubscribe")] + (r.sample(pats, 1) if r.random() < 0.8 else [])
+            else:
+                yield "c.rawdrop %s" % conn
+                continue
+            if step == 0 or conn not in getattr(orc, "raw", {}):
+                cmd = [style(b"subscribe"), b"a"] if r.random() < 0.5 else [style(b"psubscribe"), b"a*"]   # enter subscriber mode first
+            yield "c.rawhold %s 0 %s" % (conn, " ".join(hx(t) for t in cmd))
+            for ch in (b"a", b"b"):
+                yield "c.rawint 0 %s" % " ".join(hx(t) for t in [b"publish", ch, b"m%d" % step])
+            yield "c.rawint 0 %s" % " ".join(hx(t) for t in [b"pubsub", b"numpat"])
+
     def episode(self, orc, nops):
+        if getattr(self, "ep", 0) % 4 == 1:
+            yield from self.raw_case(orc)
+            return
         r = self.rng
         n = r.choice([1, 2, 3])
         yield "watchdog 60s"
